@@ -88,7 +88,7 @@ SHAPES = [
     {"quotas": ["cp", "cc"], "parent": {"cp": "-", "cc": "cp"}, "flows": {"f": {"qs": ["cc"]}, "g": {"qs": ["cp"]}}},
     {"quotas": ["qa", "qb"], "parent": {"qa": "-", "qb": "-"}, "flows": {"f": {"qs": ["qa", "qb"]}, "g": {"qs": ["qb"]}}},
 ]
-NTXN = 12
+NTXN = 14
 
 
 def rand_config(rng, thorough, shape=None):
@@ -96,7 +96,7 @@ def rand_config(rng, thorough, shape=None):
     cfg = {"quotas": list(sh["quotas"]), "parent": dict(sh["parent"]), "flows": json.loads(json.dumps(sh["flows"])),
            "Max": {}, "Expiry": {}, "GcPeriod": {}, "txns": ["t%d" % i for i in range(NTXN)]}
     for q in cfg["quotas"]:
-        cfg["Max"][q] = rng.choice([1, 2, 2, 3])
+        cfg["Max"][q] = rng.choice([1, 2, 3, 3, 4])
         cfg["Expiry"][q] = rng.choice([2, 3, 4])
         cfg["GcPeriod"][q] = rng.choice([1, 2, 3])
     return cfg
@@ -107,6 +107,19 @@ def rand_history(rng, cfg, n, conc):
     h = [{"ev": "reset", "now": rng.randint(1, 5)}]
     flows = sorted(cfg["flows"])
     nxt, live, ended = 0, [], []
+    burst = rng.random() < 0.35      # saturate a quota, abandon everything, let it all expire, saturate again
+    if burst:
+        f = rng.choice(flows)
+        q = cfg["flows"][f]["qs"][0]
+        k = min(cfg["Max"][x] for x in chain(cfg, q))
+        for _ in range(min(k + 1, NTXN // 2)):
+            h.append({"ev": "req", "t": "t%d" % nxt, "flow": f, "early": False})
+            nxt += 1
+        h.append({"ev": "adv", "d": max(cfg["Expiry"][x] + cfg["GcPeriod"][x] for x in chain(cfg, q)) + rng.choice([0, 1])})
+        for _ in range(min(k + 1, NTXN - nxt)):
+            h.append({"ev": "req", "t": "t%d" % nxt, "flow": f, "early": False})
+            live.append("t%d" % nxt)
+            nxt += 1
     for _ in range(n):
         x = rng.random()
         if nxt >= NTXN and not live:
@@ -164,17 +177,19 @@ def script_of_history(hist, cfg_flows):
             if fl["qs"] == qs:
                 return f
         raise Broken("no flow for %r" % (qs,))
-    out, conc = [], None
+    out, conc, open_ids = [], None, set()
     for e in hist:
         if e["ev"] == "begin":
-            if conc is None:
+            if conc is None or not open_ids:        # a batch ends when all its operations have returned
                 conc = {"ev": "conc", "ops": []}
                 out.append(conc)
+            open_ids.add(e["id"])
             o = {"op": e["op"], "t": e["t"]}
             if e["op"] == "req":
                 o["flow"], o["early"] = flow_of(e["qs"]), e["early"]
             conc["ops"].append(o)
         elif e["ev"] == "end":
+            open_ids.discard(e["id"])
             continue
         else:
             conc = None
@@ -215,6 +230,30 @@ def execute(ctx, binary, scripts, tag):
     return [read_ndjson(os.path.join(d, "trace-%03d.ndjson" % i)) for i in range(len(scripts))]
 
 
+def drift_check(ctx, tag, n):
+    """hook-level recordings (cq.sadd / cq.srem under the shared-state mutex) against the member-set model.
+    A mismatch is MODEL-DRIFT (evidence only), never a violation."""
+    d = ctx.sub("run-" + tag)
+
+    def one(i):
+        ev = read_ndjson(os.path.join(d, "hooks-%03d.ndjson" % i))
+        for e in ev:
+            if e.get("ev") in ("cq.sadd", "cq.srem"):
+                e["q"] = e.pop("key").rsplit("_", 1)[0]
+        acc, rej, _ = validate_history_trace(ctx, SPEC, "ConcurrencyITrace", ev, tag="%s-i%d" % (tag, i), max_rounds=1)
+        return acc, rej, sum(1 for e in ev if e.get("ev", "").startswith("cq."))
+    tot = 0
+    for acc, rej, k in parallel(one, list(range(n)), n=8):
+        tot += k
+        if rej:
+            ctx.cov["model_drift"] = True
+            r = rej[0]
+            ctx.notes.append("MODEL-DRIFT: member-set event not explained by the model: %s" % json.dumps(r["hist"][r["at"]]))
+    ctx.notes.append("hook level: %d cq.sadd / cq.srem events of %d recordings validated against the member-set model%s"
+                     % (tot, n, " - MODEL-DRIFT" if ctx.cov["model_drift"] else ""))
+    ctx.log(ctx.notes[-1])
+
+
 def judge(ctx, binary, scripts, traces, tag, seen_hist):
     def one(it):
         i, ev = it
@@ -246,18 +285,124 @@ def judge(ctx, binary, scripts, traces, tag, seen_hist):
             ctx.violation(w, {"script": [script], "trace": [rej["config"]] + rej["hist"], "rejected_at": rej["at"]})
 
 
+GEN_CONFIG = {"quotas": ["qa", "qb", "cc"], "parent": {"qa": "-", "qb": "-", "cc": "qa"},
+              "Max": {"qa": 3, "qb": 1, "cc": 2}, "Expiry": {"qa": 2, "qb": 3, "cc": 2}, "GcPeriod": {"qa": 2, "qb": 1, "cc": 2},
+              "txns": ["t%d" % i for i in range(10)],
+              "flows": {"f": {"qs": ["cc"]}, "g": {"qs": ["qa", "qb"]}, "h": {"qs": ["qb"]}}}
+
+VARIANTS = [("gc_keeps", 1), ("ge_to_gt", 1), ("dec_wrong", 1), ("no_release", 1), ("no_unregister", 1)]   # (variant, Max): each must be refuted
+
+
+def variant_cfg(sd, base, variant, mx=None, txns=None):
+    txt = open(os.path.join(sd, base)).read().replace('Variant = "none"', 'Variant = "%s"' % variant)
+    if mx is not None:
+        import re
+        txt = re.sub(r"Max = \d+", "Max = %d" % mx, txt)
+    name = base.replace(".cfg", "_%s.cfg" % variant)
+    open(os.path.join(sd, name), "w").write(txt)
+    return name
+
+
 def run(ctx):
     T = ctx.thorough
     binary = ctx.build_harness("c02")
+    sd = ctx.spec_dir(SPEC)
+    ctx.cov["rule"] = ("histories = seeded random transaction scripts over three configuration shapes (one quota; parent + internal limit "
+                       "with a flow on each; two independent quotas consulted by one flow) with requests (some answered early by a later "
+                       "processor), responses, proxy errors, repeated ends, abandoned transactions, clock advances past expiry and GC "
+                       "period, concurrent batches of requests / responses / errors + TLC -simulate walks of ConcurrencyP; a history is "
+                       "non-trivial when a request is refused (quota exhausted) and a later request is admitted (a slot was given back); "
+                       "distinct by (config, events)")
+    ctx.cov["checker_cmd"] = "tlc -config MC_small.cfg MC_C02.tla ; tlc -config ConcurrencyTrace.cfg ConcurrencyTrace.tla"
+    ctx.cov["trusted_base"] = ["TLC 1.8", "CommunityModules Json", "Go toolchain", "clock.MockClock (+PendingTimers)",
+                               "harness/cmd/c02 projection (no early-return action = admit, 429 = refuse, 200 = answered early)",
+                               "hook cq.gc.done as the completion signal of a background GC pass"]
+    ctx.assumptions += ["1 tick = 1 s; the clock moves tick by tick and no operation overlaps a background GC pass (the pass due at a tick completes before the next event)",
+                        "transaction ids are unique; the end events of a transaction (response, proxy error) come after its request was answered",
+                        "the implementation-shaped model covers one quota (no hierarchy); hierarchies and multi-quota flows are covered by the recorded traces judged by ConcurrencyP",
+                        "single gateway instance (no cluster liveness), in-memory shared state"]
+
+    n = 90 if not T else 300
+    jobs = [("ex", "MC_C02", "MC_small.cfg" if not T else "MC_large.cfg", "all interleavings: Bounded, NoLeak, Quiescent, ExpiryBound, OnceOnly")]
+    if T:
+        jobs.append(("ex", "MC_C02", "MC_small.cfg", "2 transactions, Max 1"))
+        jobs.append(("nv", "MC_C02", variant_cfg(sd, "MC_large.cfg", "alias_gc", 3), "alias_gc"))
+    jobs += [("nv", "MC_C02", variant_cfg(sd, "MC_small.cfg", v, mx), v) for v, mx in (VARIANTS if T else VARIANTS[:3])]
+    jobs.append(("gen", "GenC02", "GenC02.cfg", "behaviour generation"))
+
+    def tl(job):
+        kind, mod, cfg, label = job
+        if kind == "gen":
+            return ctx.tlc(sd, mod, cfg, workers=1, simulate="num=%d" % n, depth=41, extra=["-seed", str(ctx.seed)], timeout=900, label=label)
+        if kind == "nv":
+            return ctx.tlc(sd, mod, cfg, workers=2, timeout=900, label="non-vacuity: %s must be refuted" % label)
+        return ctx.tlc(sd, mod, cfg, workers=(4 if not T else 8), timeout=1500, label=label)
+    g = None
+    for job, r in zip(jobs, parallel(tl, jobs, n=(8 if not T else 4))):
+        kind, mod, cfg, label = job
+        if kind == "ex":
+            if not r.ok or r.distinct <= 1:
+                raise Broken("TLC %s/%s: %r\n%s" % (mod, cfg, r, r.out[-3000:]))
+            ctx.cov["states"] += r.distinct
+            ctx.cov["transitions"] += r.generated
+            ctx.log("TLC %s %s: %d generated / %d distinct, depth %d, %.1fs" % (mod, cfg, r.generated, r.distinct, r.depth, r.wall))
+        elif kind == "nv" and r.violated is None:
+            raise Broken("model variant %s is not refuted (vacuous check): %r" % (label, r))
+        elif kind == "gen":
+            g = r
+
     seen = set()
-    ncfg, nh, hl = (6, 24, 30) if not T else (24, 80, 40)
+    # (2) spec -> code: TLC walks of P replayed (Expire steps are the spec's own, not scripted)
+    behaviours = tlc_vh_lines(g.out)
+    if len(behaviours) < n:
+        raise Broken("behaviour generation produced %d walks: %s" % (len(behaviours), g.out[-1500:]))
+    flow_of = {json.dumps(fl["qs"]): f for f, fl in GEN_CONFIG["flows"].items()}
+    hists = []
+    for b in behaviours:
+        h = [{"ev": "reset", "now": 1}]
+        for e in b:
+            if e["ev"] == "req":
+                h.append({"ev": "req", "t": e["t"], "flow": flow_of[json.dumps(e["qs"])], "early": e["early"]})
+            elif e["ev"] in ("resp", "err"):
+                h.append({"ev": e["ev"], "t": e["t"]})
+            elif e["ev"] == "adv":
+                h.append({"ev": "adv", "d": e["d"]})
+        hists.append(h)
+    gscripts = [script_of(GEN_CONFIG, hists)]
+    traces = execute(ctx, binary, gscripts, "gen")
+    nexp = sum(1 for b in behaviours if any(e["ev"] == "expire" for e in b))
+    ctx.log("replayed %d TLC behaviours (%d of them with expiry steps)" % (len(behaviours), nexp))
+    ctx.sample({"kind": "tlc-behaviour", "config": {k: GEN_CONFIG[k] for k in ("Max", "Expiry", "GcPeriod", "parent")}, "events": behaviours[0][:12]})
+    judge(ctx, binary, gscripts, traces, "gen", seen)
+
+    # (3) code -> spec: random scripts incl. concurrency, recorded and validated
+    ncfg, nh, hl = (9, 24, 30) if not T else (24, 80, 40)
     scripts = []
     for c in range(ncfg):
-        cfg = rand_config(ctx.rng, T)
-        scripts.append(script_of(cfg, [rand_history(ctx.rng, cfg, hl, conc=(i % 2 == 1)) for i in range(nh)]))
+        cfg = rand_config(ctx.rng, T, shape=SHAPES[c % len(SHAPES)])
+        scripts.append(script_of(cfg, [rand_history(ctx.rng, cfg, hl, conc=(i % 2 == 1)) for i in range(nh)], hooks=True))
     traces = execute(ctx, binary, scripts, "rand")
     ctx.sample({"kind": "recorded-trace", "events": traces[0][:14]})
     judge(ctx, binary, scripts, traces, "rand", seen)
+    if not ctx.violations:
+        drift_check(ctx, "rand", len(scripts))
+    if ctx.cov["distinct_nontrivial"] < 20 and not ctx.violations:
+        raise Broken("only %d non-trivial histories" % ctx.cov["distinct_nontrivial"])
+
+    # (4) binding self-test (thorough): a corrupted / truncated recording must be rejected
+    if T and not ctx.violations:
+        ev = [e for e in traces[0]]
+        k = next(i for i, e in enumerate(ev) if e.get("ev") == "req" and e.get("out") == "refuse")
+        bad = [dict(e) for e in ev]
+        bad[k]["out"] = "admit"
+        _, rej, _ = validate_history_trace(ctx, SPEC, "ConcurrencyTrace", bad, tag="selftest1", max_rounds=1)
+        # dropping a response: the slot stays held in the spec, a later admission then exceeds the bound or a refusal is missing
+        k2 = next(i for i, e in enumerate(ev) if e.get("ev") == "resp")
+        drop = [e for i, e in enumerate(ev) if i != k2]
+        _, rej2, _ = validate_history_trace(ctx, SPEC, "ConcurrencyTrace", drop, tag="selftest2", max_rounds=1)
+        if not rej:
+            raise Broken("self-test: corrupted trace accepted")
+        ctx.notes.append("self-test: corrupted verdict rejected=%s, dropped response event rejected=%s" % (bool(rej), bool(rej2)))
 
 
 def replay(ctx, path):
